@@ -197,6 +197,7 @@ func (s *SubscriptionManager[C, T]) Disconnect(clientID C) bool {
 func (s *SubscriptionManager[C, T]) Subscribe(clientID C, topic T) bool {
 	clientDropped := false
 	var removedTopics, unsubscribedTopics []T
+	topicSubscribed := false
 	topicAdded := false
 
 	// inline function used to release the lock before firing the event
@@ -240,6 +241,8 @@ func (s *SubscriptionManager[C, T]) Subscribe(clientID C, topic T) bool {
 			s.topics.Set(topic, 1)
 			topicAdded = true
 		}
+
+		topicSubscribed = true
 	}()
 
 	if clientDropped {
@@ -254,6 +257,12 @@ func (s *SubscriptionManager[C, T]) Subscribe(clientID C, topic T) bool {
 
 		s.events.ClientDisconnected.Trigger(&ClientEvent[C]{ClientID: clientID})
 
+		// do not fire the subscribed events
+		return false
+	}
+
+	if !topicSubscribed {
+		// the client is not connected
 		// do not fire the subscribed events
 		return false
 	}
